@@ -137,3 +137,25 @@ package keeper
 //@ loop 1: invariant forall a, b :: 0 <= a && a < b && b < members_size - i ==> memberIdx[a] != memberIdx[b]
 //@ loop 1: invariant forall j :: 0 <= j && j < len(selected) ==> (exists c :: 0 <= c && c < members_size && selected[j] == members[c] && (forall a :: 0 <= a && a < members_size - i ==> memberIdx[a] != c))
 //@ loop 1: invariant forall a, b :: 0 <= a && a < b && b < len(selected) ==> selected[a] != selected[b]
+
+// ---- C04: on-chain complaint verification ------------------------------------------------------------------
+//@ spec r1At(s Store, g Int, m Int) types.Round1Info = dec(types.Round1Info, s[types.Round1InfoStoreKey(g, m)])
+//@ spec r2At(s Store, g Int, m Int) types.Round2Info = dec(types.Round2Info, s[types.Round2InfoStoreKey(g, m)])
+// slot of the share the respondent (dealer) encrypted for the complainant: ids are 1-based, own id skipped
+//@ spec shareSlot(dealer Int, receiver Int) Int = receiver < dealer ? receiver - 1 : receiver - 2
+
+// A complaint succeeds exactly when both parties' round-1 data and the respondent's round-2 data exist, the
+// respondent dealt a share for the complainant, and the cryptographic check accepts the complainant's and the
+// respondent's one-time keys, the key sym, the signature, THE SHARE THE RESPONDENT ENCRYPTED FOR THE COMPLAINANT
+// and the respondent's commitments.
+//@ func (k Keeper) VerifyComplaint
+//@ requires 1 <= complaint.Complainant && 1 <= complaint.Respondent && complaint.Complainant != complaint.Respondent
+//@ requires complaint.Complainant <= MaxInt64 && complaint.Respondent <= MaxInt64
+//@ ensures err == nil <==> (has(Store_tss, types.Round1InfoStoreKey(groupID, complaint.Complainant))
+//@       && has(Store_tss, types.Round1InfoStoreKey(groupID, complaint.Respondent))
+//@       && has(Store_tss, types.Round2InfoStoreKey(groupID, complaint.Respondent))
+//@       && shareSlot(complaint.Respondent, complaint.Complainant) < len(r2At(Store_tss, groupID, complaint.Respondent).EncryptedSecretShares)
+//@       && tss.validComplaint(r1At(Store_tss, groupID, complaint.Complainant).OneTimePubKey, r1At(Store_tss, groupID, complaint.Respondent).OneTimePubKey,
+//@             complaint.KeySym, complaint.Signature,
+//@             r2At(Store_tss, groupID, complaint.Respondent).EncryptedSecretShares[shareSlot(complaint.Respondent, complaint.Complainant)],
+//@             complaint.Complainant, r1At(Store_tss, groupID, complaint.Respondent).CoefficientCommits))
